@@ -90,11 +90,14 @@ CLAIM = {
              "branches of atomic_replace (not crash points); lone surrogates make .encode('utf-8') raise before anything is written. "
              "LogMux capture/flush (logmux.py) and `rotate_logs.main`'s size threshold are tied by correspondence only (same file as a direct "
              "append sequence; rotated iff size >= --max-bytes). Not modelled: turn ids that are strings or None (wall-clock derived), "
-             "Rename FAULTS (round 5): a retried failed attempt changes nothing (C16_rotate_transient_faults), the retried errno set is "
-             "pinned to the documented one by a regenerated table (C16_rotate_retry_set), and a rename that fails for good makes atomic_replace "
-             "unlink its SOURCE — in rotate_one a live generation — which loses a generation other than the oldest: negative witness "
-             "C16_rotate_persistent_failure_loses_source_witness / _not_lossless, reproduced exactly on the real code and recorded as finding "
-             "C16:rotfault:persistent_rename_failure_loses_only_oldest (proposed_findings/C16.json). A capture (LogMux) must never fall back to "
+             "Rename FAULTS: a retried failed attempt changes nothing (C16_rotate_transient_faults), the retried errno set is "
+             "pinned to the documented one by a regenerated table (C16_rotate_retry_set); a rename that fails for good ends the rotation with "
+             "its source generation in place — rotate_one passes unlink_on_failure=False (fix C16_rotfault; table-checked by "
+             "C16_rotate_keeps_source_on_failed_rename) — so the state equals a crash state and nothing but the oldest is lost "
+             "(C16_rotate_persistent_failure_nothing_lost/_legal); the helper's default clean-up (unlink the source, meant for temp files) "
+             "is kept as regression witness C16_rotate_unlink_source_witness, and the monitor persistent_rename_failure_loses_only_oldest "
+             "(key C16:rotfault:persistent_rename_failure_loses_only_oldest) reports it if it returns. "
+             "A capture (LogMux) must never fall back to "
              "write-through while active: monitored, including captures of > 4096 records."),
     "technique": "Lean 4 proofs (induction over schedules / arrival lists / step lists, permutation + sortedness lemmas, decide over regenerated tables) + exact correspondence on real files with crash injection",
     "design_ref": "DESIGN.md §4 C16, §5 row 16",
